@@ -330,6 +330,7 @@ class Interp(Hooks):
         self.inlined_functions: set[str] = set()
         self.bool_defs: dict[str, ast.expr] = {}
         self.comp_defs: dict[str, ast.expr] = {}
+        self.nt_registry: dict[str, list[str]] = {}
         self.dict_defs: dict[str, ast.Dict] = {}
         self.site0 = None
         self.opaque_calls: dict[str, int] = {}
@@ -440,7 +441,10 @@ class Interp(Hooks):
                     return repr(c.value)
             return f"g:{e.id}"
         if isinstance(e, ast.Attribute):
-            key = f"{self.term(e.value, d)}.{e.attr}"
+            bt_ = self.term(e.value, d)
+            if bt_ in self.nt_registry and e.attr in self.nt_registry[bt_]:
+                return split_tuple(bt_)[self.nt_registry[bt_].index(e.attr)]
+            key = f"{bt_}.{e.attr}"
             return d.vars.get(key, key)
         if isinstance(e, (ast.Tuple, ast.List)):
             parts = []
@@ -519,9 +523,20 @@ class Interp(Hooks):
                         out.append(self._with_binding(g.target, el, d, lambda: self.term(e.elt, d)))
                 if ok:
                     return "(" + ", ".join(out) + ("," if len(out) == 1 else "") + ")" if out else "()"
+        if isinstance(e, ast.DictComp) and len(e.generators) == 1 and isinstance(e.generators[0].target, ast.Name) and not e.generators[0].ifs:
+            g = e.generators[0]
+            elems = self._known_elements(self.term(g.iter, d), d)
+            if elems is not None and elems:
+                items = [self._with_binding(g.target, el, d, lambda: f"{self.term(e.key, d)}: {self.term(e.value, d)}") for el in elems]
+                return "{" + ", ".join(items) + "}"
         if isinstance(e, (ast.ListComp, ast.SetComp, ast.DictComp, ast.GeneratorExp, ast.Lambda, ast.JoinedStr)):
             return f"expr@L{getattr(e, 'lineno', 0)}c{getattr(e, 'col_offset', 0)}"
         return self._subst(e, d)
+
+    def _namedtuple_fields(self, cls) -> list[str] | None:
+        if not any(norm(b).endswith("NamedTuple") for b in cls.node.bases):
+            return None
+        return [s_.target.id for s_ in cls.node.body if isinstance(s_, ast.AnnAssign) and isinstance(s_.target, ast.Name)]
 
     def _known_elements(self, t: str, d: AState):
         """element terms of a collection term whose length is known now, else None"""
@@ -724,6 +739,17 @@ class Interp(Hooks):
             return f"{fi.short}({', '.join(a)})@{ep}"
         if tgt and tgt[0] == "class":
             a = self.args_terms(c, d)
+            fields = self._namedtuple_fields(tgt[1])
+            if fields is not None:
+                # a NamedTuple is the tuple of its fields; remember the field names for attribute access
+                vals = list(a) + [None] * (len(fields) - len(a))
+                for kw in c.keywords:
+                    if kw.arg in fields:
+                        vals[fields.index(kw.arg)] = self.term(kw.value, d)
+                if all(v is not None for v in vals):
+                    t = "(" + ", ".join(vals) + ("," if len(vals) == 1 else "") + ")"
+                    self.nt_registry[t] = fields
+                    return t
             return f"new {tgt[1].name}({', '.join(a)})"
         # method on a local value
         if isinstance(fn, ast.Attribute):
